@@ -59,6 +59,7 @@ type Exec struct {
 	monitor  bool
 	catching int
 	abstract []string // reasons this path used an unrealisable stub result
+	lockDepth int // >0 while a sync.Mutex / RWMutex is held: writes are synchronised
 	syncMaps map[string]*Map
 	onceDone map[string]bool
 	curFn    []*ssa.Function
